@@ -76,6 +76,14 @@ def corpus():
                    + _probes(['/doc/a/end/endive', '/doc/a/b/end/end', '/doc/a/end/b', '/doc/end/end/end', '/w/a/edit/edit/3',
                               '/w/a/editor/edit/4', '/q/a/x/x/y', '/q/a/xy/x/y', '/q/a/x/y/x/y', '/z/a.tar/b.tar.gz',
                               '/z/a.tar.gz.tar.gz'])))
+    # `re` wildcards whose regex is spelled like the mask of int / float, in both creation orders, each starting from an
+    # empty process-wide filter cache: the re ones hand TEXT ('007', '1.50'), int / float hand numbers
+    cs.append(dict(fresh_cache=True,
+                   cmds=_adds(['/zip/<code:re:-?\\d+>', '/n/<v:int>', '/amt/<a.re(-?\\d+(\\.\\d+)?)>', '/fl/<f:float>'])
+                   + _probes(['/zip/007', '/n/007', '/amt/1.50', '/fl/1.50', '/zip/-3', '/n/-3'])))
+    cs.append(dict(fresh_cache=True,
+                   cmds=_adds(['/n/<v:int>', '/zip/<code.re(-?\\d+)>', '/fl/<f:float>', '/amt/<a:re:-?\\d+(\\.\\d+)?>'])
+                   + _probes(['/zip/007', '/n/007', '/amt/1.50', '/fl/1.50', '/zip/-3', '/n/-3'])))
     # adjacent wildcards, wildcard that swallows nothing in the middle
     cs.append(dict(cmds=_adds(['/w/<a><b>', '/w/<a:int><b>/k']) + _probes(['/w/x', '/w/12ab/k', '/w/12/k', '/w/'])))
     return cs
@@ -171,6 +179,8 @@ def gen(rng, n):
                 cmds.append(dict(op='dispatch', path=p,
                                  verb=rng.choice(['GET', 'GET', 'GET', 'POST', 'HEAD', 'PUT'])))
         case = dict(cmds=cmds)
+        if rng.random() < 0.15:
+            case['fresh_cache'] = True          # as in a fresh process: the creation order of the filters is this case's
         if rng.random() < 0.1:
             # a second application operated in between (shared class-level filter cache and parser object)
             other = [L.gen_rule(rng) for _k in range(3)]
